@@ -12,6 +12,9 @@ func parseReferenceInfo(s string) pars.Parser {
 	parser := pars.Seq(pars.Int, " to ", pars.Int).Map(func(result *pars.Result) error {
 		start := result.Children[0].Value.(int) - 1
 		end := result.Children[2].Value.(int)
+		if end <= start {
+			return fmt.Errorf("reference range %d to %d is not ascending", start+1, end)
+		}
 		result.SetValue(gts.Range(start, end))
 		return nil
 	})
